@@ -138,10 +138,10 @@ def has_adj_dup(tags):
 
 
 def stale_after_dropped_row(c, pi):
-    """signature of C11-stale-shardkey-after-dropped-row, by replaying the batch bookkeeping of today's code up to the
-    failing row: the remembered shard-key definition belongs to ANOTHER measurement with a different key, although the
-    previous row resolved this row's measurement (it was dropped by the schema check before it was routed) and the shard
-    group did not change"""
+    """signature of C11-stale-shardkey-after-dropped-row, by replaying the batch bookkeeping of today's code (preMst /
+    sameMst, preSg, the alive-list cache, ctx.shardKeyInfo) up to the failing row: the remembered shard-key definition
+    belongs to ANOTHER measurement with a different key, although the previous row resolved this row's measurement (it was
+    dropped by the schema check before it was routed) and the shard group did not change"""
     pts = c["points"]
     msts = c["cfg"]["msts"]
     start = pi
@@ -149,28 +149,35 @@ def stale_after_dropped_row(c, pi):
         start -= 1
     pre_mst = None     # measurement resolved for the previous row (writeHelper.preMst)
     key_owner = None   # measurement whose shard key sits in ctx.shardKeyInfo
-    cached_gid = None  # writeHelper.preSg
+    cached = None      # writeHelper.preSg
+    asis = False       # ctx.aliveShardIdxes non-empty
     for i in range(start, pi + 1):
         p = pts[i]
-        if p["time"] < 0:
+        t = p["time"]
+        if t < 0:
             continue  # outside the retention window: rejected before the measurement is looked at
         same_mst = pre_mst == p["m"]
         pre_mst = p["m"]
         if p["conflict"] or has_adj_dup(p["tags"] or []):
             continue  # dropped between createMeasurement and updateShardGroupAndShardKey
-        gid = p["gid"] if not p["err"] else None
-        same_sg = gid is not None and gid == cached_gid
+        hit = cached is not None and int(cached["start"]) <= t < int(cached["end"])
+        g = cached if hit else None
+        if g is None:
+            for x in c["groups"]:  # catalogue order; the last writable group containing t, among those existing by now
+                if x["born"] <= i and not x["deleted"] and int(x["start"]) <= t < int(x["end"]) and (x["trunc"] is None or t < int(x["trunc"])):
+                    g = x
+        if g is None:
+            cached = None
+            continue
+        same_sg = hit and asis
         if i == pi:
             return (same_mst and same_sg and key_owner is not None and key_owner != p["m"]
-                    and key_at(msts[key_owner], gid) != key_at(msts[p["m"]], gid))
-        if gid is None:
-            # a row rejected inside the routing step (missing shard-key tag): its group is not observable; be
-            # conservative and treat the bookkeeping as refreshed
-            key_owner, cached_gid = p["m"], None
-            continue
+                    and key_at(msts[key_owner], g["id"]) != key_at(msts[p["m"]], g["id"]))
         if not (same_mst and same_sg):
             key_owner = p["m"]
-        cached_gid = gid
+        cached = g
+        if not p["err"]:
+            asis = True
     return False
 
 
